@@ -97,4 +97,14 @@ CLAIMED["C16"] = {
           "which is checked on every accepted program.",
   "technique": "Coq proof (stack-machine syntax checker, induction over the traversal) + bash -n / structural validation",
 }
+CLAIMED["C06"] = {
+  "text": "Theorem (bound = the table): for each of the 2344 entries of the position x offered-type x context table the model of the whole pipeline accepts "
+          "for both targets exactly when the typing rules allow it, and rejects for both otherwise - decided inside Coq by vm_compute and lifted with "
+          "forallb_forall; the recorded findings are stated as C06_known_refuted. The same table and generated single-position mutants are run through "
+          "the implementation (both converters) and must agree with the rules and with the model.",
+  "ref": "DESIGN.md section 5/C06",
+  "note": "PARTIAL: the general soundness statement over all programs is not proved (finite table + sampling). Known findings: nested return of a wrong "
+          "type, multi-value call as last of several values.",
+  "technique": "Coq proof by exhaustive computation over a stated finite table + implementation run of the same table",
+}
 NOT_CLAIMED = {}
